@@ -160,7 +160,8 @@ def run_C01(run):
 
 ALL_CAT = set(range(1, 9))
 SMALL_CAT = {1, 2, 3, 5, 6}
-BASE_EXPR = dict(MaxNodes=1, UseCat=True, UseVal=False, CatIds=ALL_CAT, ElemNames={"a", "b"}, AttrNames=set(), TextVals={"1"}, WithComment=False)
+BASE_EXPR = dict(MaxNodes=1, UseCat=True, UseVal=False, CatIds=ALL_CAT, ElemNames={"a", "b"}, AttrNames=set(), AttrPrefixes={""}, TextVals={"1"},
+                 WithComment=False)
 
 
 VM2_AXES = {"child", "descendant", "following-sibling", "ancestor", "self", "parent", "preceding-sibling", "following", "preceding",
@@ -589,6 +590,30 @@ def run_C11(run):
     run.gen_and_replay("MC_Expr", consts(base, Family="C11pred", MaxNodes=4 if q else 5), name="union-in-predicates", kind="sel-set")
     tr = run.drive("unions", 2500 if q else 40000, extra=["-nodes", "16"])
     run.validate_batch(tr, "unions-flowB")
+    # node identity (XHash.tla): the key getHashCode hashes is injective on every document (TLC, KeyInjective); the two
+    # non-injective keys of the past are refuted; on the engine: no two nodes of a document hash alike (VERDICT), and the
+    # hash is FNV-64a of exactly the specified key (a difference without collision is model drift)
+    hc = dict(MaxNodes=5 if q else 6, UseCat=True, ElemNames={"a", "a-1"}, AttrNames={"a"}, AttrPrefixes={"", "p", "q"}, TextVals={"1", "-1"},
+              WithComment=True, Deviations=set())
+    r = run.tlc("MC_Hash", hc, invariants=("KeyInjective", "Emit"), name="hash-key-injective")
+    stats, ms = run.replay(r["outfile"], kind="hash", render="full", stage="hash-conformance")
+    run.mismatches += [m for m in ms if m["fail"] != "hash-key"]
+    run.drift = getattr(run, "drift", []) + [m for m in ms if m["fail"] == "hash-key"]
+    for dev in ("name-first", "no-prefix"):
+        r = run.tlc("MC_Hash", consts(hc, MaxNodes=4, Deviations={dev}), invariants=("KeyInjective",), name="hash-deviation-" + dev,
+                    out=False, allow_violation=True)
+        if "Invariant KeyInjective is violated" not in r["log"]:
+            raise ToolingError("XHash does not refute the non-injective key %s: vacuous model" % dev)
+    # unions over attributes that differ in the prefix only (same local name, same value, same element)
+    run.gen_and_replay("MC_Expr", consts(base, Family="C11pairs", MaxNodes=4, UseCat=False, ElemNames={"a"}, AttrNames={"a"},
+                                         AttrPrefixes={"", "p", "q"}, TextVals={"1"}, WithComment=False),
+                       name="union-prefixed-attrs", kind="sel-once")
+    # XQueryVM2: the union query in the implementation-shaped model (both operands drained on the first call, kept by identity
+    # key, the cursor movements of the hash): each node once (VM2Once), the set union (VM2Refines); conformance as drift
+    c6 = consts(VM2_BASE, MaxNodes=3 if q else 4, CatIds={2, 5, 6} if q else ALL_CAT, Parts={6})
+    r = run.tlc("MC_VM2", c6, invariants=("VM2Refines", "VM2Once", "Emit"), name="vm2-union")
+    stats, drift = run.replay(r["outfile"], kind="vm", render="full", stage="vm2-union-conformance")
+    run.drift = getattr(run, "drift", []) + drift
     base2 = consts(base, ElemNames={"b1", "b", "a-1-1"}, TextVals={"1-1", ""}, WithComment=False)
     run.gen_and_replay("MC_Expr", consts(base2, Family="C11pairs", MaxNodes=4, UseCat=False), name="union-pairs-names2", kind="sel-once")
 
